@@ -223,6 +223,11 @@ func (s *TO0Server) acceptOwner(ctx context.Context, msg io.Reader) (*to0AcceptO
 		return nil, fmt.Errorf("error decoding TO0.OwnerSign request: %w", err)
 	}
 
+	if sig.To1d.Payload == nil {
+		captureErr(ctx, protocol.InvalidMessageErrCode, "")
+		return nil, fmt.Errorf("error decoding TO0.OwnerSign request: to1d is missing its payload")
+	}
+
 	// Verify to0d hash matches to0d
 	to0dHash := sig.To1d.Payload.Val.To0dHash.Algorithm.HashFunc().New()
 	if err := cbor.NewEncoder(to0dHash).Encode(sig.To0d.Val); err != nil {
